@@ -25,7 +25,8 @@ def _mk_filter(spec: Dict[str, Any], st):
     if k == "rank":
         return tf.RankFilter(spec["ranks"][0] if spec.get("scalar") else list(spec["ranks"]))
     if k == "time":
-        return tf.TimeRangeFilter((spec["a"], spec["b"]))
+        u = spec.get("u", 1)          # ticks per microsecond of the recorded bounds (the frame itself is in microseconds)
+        return tf.TimeRangeFilter((spec["a"] // u, spec["b"] // u))      # the filter takes whole microseconds: recorded bounds are multiples of u
     if k == "name":
         return tf.NameFilter(spec["pat"], symbol_table=st if spec.get("ctor_st") else None)
     if k == "gpu":
@@ -37,7 +38,7 @@ def _mk_filter(spec: Dict[str, Any], st):
     raise ValueError(k)
 
 
-def _rows(df, st, with_all=True) -> List[Dict[str, Any]]:
+def _rows(df, st, with_all=True, u=1) -> List[Dict[str, Any]]:
     """uid + content hash over every column (+ the abstract fields when with_all)."""
     out = []
     if df is None or len(df.columns) == 0:
@@ -50,7 +51,7 @@ def _rows(df, st, with_all=True) -> List[Dict[str, Any]]:
         if with_all:
             name = d["name"] if isinstance(d["name"], str) else st[int(d["name"])]
             cat = d["cat"] if isinstance(d["cat"], str) else st[int(d["cat"])]
-            row.update({"ts": hta.ival(d["ts"]), "dur": hta.ival(d["dur"]), "stream": hta.ival(d["stream"]), "corr": hta.ival(d["correlation"]),
+            row.update({"ts": hta.ival(d["ts"] * u), "dur": hta.ival(d["dur"] * u), "stream": hta.ival(d["stream"]), "corr": hta.ival(d["correlation"]),
                         "name": name, "cat": cat, "iter": hta.ival(d["iteration"]), "rank": hta.ival(d["rank"])})
         out.append(row)
     return out
@@ -85,12 +86,16 @@ class C18(Prop):
         case["fseed"] = rng.randrange(10 ** 6)
         case["incl"] = rng.random() < 0.5
         case["dup_labels"] = rng.random() < 0.4     # multi-rank frame concatenated WITHOUT renumbering: row labels repeat across ranks
+        case["quarter"] = rng.random() < 0.25       # float-typed times, durations with quarter-microsecond fractions (recorded in ticks of 1/4 us)
+        case["share"] = rng.random() < 0.5          # [f, f] / [g, g] apply the SAME filter object twice instead of two equal objects
         return case
 
-    def _specs(self, rng, frame, allow_memcpy=True) -> List[Dict[str, Any]]:
+    def _specs(self, rng, frame, allow_memcpy=True, u=1) -> List[Dict[str, Any]]:
         iters = sorted({x["iter"] for x in frame})
         ranks = sorted({x["rank"] for x in frame})
         times = sorted({x["ts"] for x in frame} | {x["ts"] + x["dur"] for x in frame}) or [0]
+        if u != 1:      # window bounds are whole microseconds: the microsecond at or just below / above each event boundary
+            times = sorted({(t // u) * u for t in times} | {-(-t // u) * u for t in times})
         kinds = ["iter", "iteridx", "rank", "time", "name", "gpu", "cpu", "memcpy", "name", "iteridx"]
         if not allow_memcpy:
             kinds.remove("memcpy")      # MemCopyEventFilter compares symbol ids: it needs a symbol table
@@ -144,7 +149,14 @@ class C18(Prop):
             df = pd.concat(parts, ignore_index=not case.get("dup_labels", False))
             if case.get("no_end") and "end" in df.columns:
                 df = df.drop(columns=["end"])
-            obs["frame"] = _rows(df, st)
+            U = 4 if case.get("quarter") else 1
+            if U != 1:
+                rq = random.Random(case["fseed"] + 1)
+                df["ts"] = df["ts"].astype("float64")
+                df["dur"] = df["dur"].astype("float64") + [rq.choice([0.0, 0.25, 0.5, 0.75]) for _ in range(len(df))]
+                if "end" in df.columns:
+                    df["end"] = df["ts"] + df["dur"]
+            obs["frame"] = _rows(df, st, u=U)
             if not obs["frame"]:
                 return {"skip": True}
             rng = random.Random(case["fseed"])
@@ -164,13 +176,21 @@ class C18(Prop):
                 return res
 
             kept = []
-            for app in self._specs(rng, obs["frame"], allow_memcpy=case["rep"] not in ("decoded", "decoded_name")):
+            for app in self._specs(rng, obs["frame"], allow_memcpy=case["rep"] not in ("decoded", "decoded_name"), u=U):
                 rec = {"fs": [{k: v for k, v in f.items()} for f in app["fs"]], "out": [], "err": "", "mode": app["mode"]}
                 objs = None
                 try:
                     for f in rec["fs"]:
                         f["ctor_st"] = case["rep"] in ("encoded_ctor", "encoded_both")
-                    objs = [_mk_filter(f, other_st if other_st is not None else st_obj) for f in rec["fs"]]
+                        f["u"] = U
+                    made: Dict[int, Any] = {}
+                    objs = []
+                    for f0, f in zip(app["fs"], rec["fs"]):
+                        if case.get("share") and id(f0) in made:
+                            objs.append(made[id(f0)])           # the same object a second time
+                        else:
+                            made[id(f0)] = _mk_filter(f, other_st if other_st is not None else st_obj)
+                            objs.append(made[id(f0)])
                     rec["out"] = _rows(run(objs, app["mode"], df), st, with_all=False)
                 except Exception as ex:
                     rec["err"] = hta.exc_str(ex)
@@ -189,7 +209,7 @@ class C18(Prop):
                     extra.iloc[k, extra.columns.get_loc("s_name")] = nm
             extra["uid"] = extra["uid"] + 50000
             df2 = pd.concat([df, extra], ignore_index=not case.get("dup_labels", False))
-            obs["frame2"] = _rows(df2, st2)
+            obs["frame2"] = _rows(df2, st2, u=U)
             obs["apps2"] = []
             for rec, objs, mode in kept:
                 rec2 = {"fs": rec["fs"], "out": [], "err": "", "mode": mode}
